@@ -3,6 +3,7 @@ the access path to its root name.  An object mutated through one name poisons
 every other name that may share it (reads of a poisoned name are Unsupported),
 so aliasing can make a function undecided but never unsound."""
 import ast
+import os
 
 import z3
 
@@ -72,6 +73,12 @@ def store(ex, target, val, node, in_place=True):
         j = i if ex.is_nonneg(i) else vl.simp(z3.If(i < 0, i + n, i))
         ex.safe(z3.And(j >= 0, j < n), 'IndexError', 'item store in range', node)
         kn = ex.known_len(seq)
+        if kn is None and os.environ.get('PYVC_DEBUG_LEN'):
+            import sys
+            print('known_len miss for', vl.simp(z3.Length(seq)).sexpr()[:300], file=sys.stderr)
+            for c in ex.pc:
+                if z3.is_eq(c) and 'seq.len' in c.sexpr()[:200] and len(c.sexpr()) < 400:
+                    print('    lit', c.sexpr()[:300].replace('\n', ' '), file=sys.stderr)
         if kn is not None and z3.is_int_value(j) and 0 <= j.as_long() < kn <= 8:
             # a sequence of known length: the elements are spelled out
             parts = [z3.Unit(as_val(val)) if q == j.as_long() else z3.Unit(seq[q]) for q in range(kn)]
